@@ -414,17 +414,16 @@ def parse (text : Str) : Except PErr Json := (run init text).bind finish
 
 /-! ## Bytes -/
 
-abbrev Bytes := FileOps.Bytes
 
 /-- `text.encode("utf-8")` -/
-def encodeUtf8 : Str → Bytes
+def encodeUtf8 : Str → FileOps.Bytes
   | [] => []
   | c :: cs => String.utf8EncodeChar c ++ encodeUtf8 cs
 
 def isCont (b : UInt8) : Bool := 128 ≤ b.toNat && b.toNat < 192
 
 /-- `data.decode("utf-8")`, strict; `none` = `UnicodeDecodeError`. -/
-def decodeUtf8 : Bytes → Option Str
+def decodeUtf8 : FileOps.Bytes → Option Str
   | [] => some []
   | b0 :: rest =>
     if b0.toNat < 128 then (decodeUtf8 rest).map (Char.ofNat b0.toNat :: ·)
@@ -454,7 +453,7 @@ def decodeUtf8 : Bytes → Option Str
 open Persist in
 /-- The first `try` block of `Persistence.load` from the bytes of the file to the parsed value:
 `read` (decode), `read or "{}"`, `json.loads`.  `none`: outside the modelled fragment. -/
-def classify (b : Bytes) : Option FileState :=
+def classify (b : FileOps.Bytes) : Option FileState :=
   match decodeUtf8 b with
   | none => some .undecodable
   | some [] => some .empty
